@@ -308,9 +308,10 @@ def _vkey(profile, res):
 def shrink(profile, config, ops, key, budget=400):
     """ddmin over steps, then per-op simplification, keeping the violation class."""
     tests = [0]
+    deadline = time.time() + float(os.environ.get("DSIM_SHRINK_SECONDS", "90"))  # large histories: stop minimising, keep what we have
 
     def fails(cand):
-        if tests[0] >= budget:
+        if tests[0] >= budget or time.time() > deadline:
             return False
         tests[0] += 1
         try:
